@@ -1,7 +1,8 @@
 (* h_core.ml — handlers of area "core": histories of tree-API calls on the heap model (CoreDefs.v / CoreOps.v).
 
    case:   hist <cfg> <fail> <op>;<op>;...
-     cfg   letters: D = after every call print the dumps of the roots that changed; X = at the end delete every
+     cfg   letters: E = print the allocator events at the end (and as the result of every hooks call);
+           D = after every call print the dumps of the roots that changed; X = at the end delete every
            live root and print the ledger again; T = (implementation only) run on a thread with a small stack;
            - = none
            S = the model driver answers MODEL-SKIPPED (cases that are too expensive for the extracted model)
@@ -98,6 +99,15 @@ let parse_op (s : string) : op =
   | "depth" -> OChildDepth (iarg (g 1))
   | _ -> failwith ("unknown op " ^ s)
 
+(* calls the heap model does not cover (printer, parser, utilities): the implementation driver runs them, the model
+   treats them as calls that leave the heap alone; those that return an item push a NULL handle.  Their results
+   print as ? and are not comparable (the properties' projections leave them out). *)
+let external_op (s : string) : bool option =
+  match List.hd (split_on ':' s) with
+  | "print" | "printbuf" | "printpre" | "minify" | "sortobj" | "sortobjcs" | "findptr" | "applypatch" | "applypatchcs" -> Some false
+  | "parse" | "genpatch" | "genpatchcs" | "genmerge" | "genmergecs" | "mergepatch" | "mergepatchcs" | "getptr" | "getptrcs" -> Some true
+  | _ -> None
+
 (* ---- canonical output ---- *)
 let dbl_short (d : spec_float) : string =
   match d with
@@ -151,6 +161,16 @@ let oracle_of (s : string) (nops : int) : int -> int -> (nat -> bool) =
 
 exception Model_err of string
 
+(* the trace of Heap.v summarised like the implementation driver's counters:
+   user allocs . user frees . user free(NULL) . libc allocs . libc frees . libc free(NULL) . realloc/calloc (never in this model) *)
+let events_str (h : heap) : string =
+  let ua = ref 0 and uf = ref 0 and un = ref 0 and la = ref 0 and lf = ref 0 and ln = ref 0 in
+  List.iter (fun e -> match e with
+    | EvAlloc (_, UserHook) -> incr ua | EvAlloc (_, LibcFn) -> incr la
+    | EvFree (_, UserHook) -> incr uf | EvFree (_, LibcFn) -> incr lf
+    | EvFreeNull UserHook -> incr un | EvFreeNull LibcFn -> incr ln) h.h_trace;
+  Printf.sprintf "%d.%d.%d.%d.%d.%d.0" !ua !uf !un !la !lf !ln
+
 let h_hist (a : string array) : string =
   let cfg = a.(1) in
   if String.contains cfg 'S' then "MODEL-SKIPPED" else
@@ -168,12 +188,18 @@ let h_hist (a : string array) : string =
     | Err e -> raise (Model_err (err_str e)) in
   (try
     List.iter (fun s ->
+      match external_op s with
+      | Some pushes ->
+          incr opno;
+          if pushes then st := { st_items = (!st).st_items @ [None]; st_strs = (!st).st_strs };
+          Buffer.add_string out (Printf.sprintf "? L%d ; " (int_of_nat (live_count !heap)))
+      | None ->
       let o = parse_op s in
       let oracle = oracle_at !opno (int_of_nat (!heap).h_req) in
       incr opno;
       let (r, st') = run (run_op oracle !st o) in
       st := st';
-      Buffer.add_string out (result_str !st r);
+      Buffer.add_string out (match o with OInitHooks _ -> events_str !heap | _ -> result_str !st r);
       (match o, r with
        | ODuplicate (i, _), RPtr (Some c) ->
            (* C11: source and copy share no owned block *)
@@ -195,6 +221,7 @@ let h_hist (a : string array) : string =
       end;
       Buffer.add_string out (Printf.sprintf " L%d ; " (int_of_nat (live_count !heap)))) ops;
     Buffer.add_string out (Printf.sprintf "END live=%d reqs=%d" (int_of_nat (live_count !heap)) (int_of_nat (!heap).h_req));
+    if String.contains cfg 'E' then Buffer.add_string out (" ev=" ^ events_str !heap);
     if String.contains cfg 'X' then begin
       (* delete every live root, in handle order *)
       let n = List.length (!st).st_items in
